@@ -214,24 +214,20 @@ func checkC04(c *Ctx) (int, error) {
 			add(plainSrc([]int{0}), []int{1 << 20})
 			for ci, ch := range chunkSchedules {
 				for ri, rd := range readSchedules {
-					if c.Tier != "thorough" && (ci+ri+si+arch)%4 != 0 {
-						continue // quick: a quarter of the product per stream and level, rotating
-					}
+
 					add(RSource{Kind: "plain", Chunks: ch, FailAt: -1, Released: -1, EOFData: (ci+ri)%2 == 0}, rd)
 				}
 			}
 			for bi, bs := range bufioSizes {
 				for ri, rd := range readSchedules {
-					if c.Tier != "thorough" && (bi+ri+si)%3 != 0 {
-						continue
-					}
+
 					add(RSource{Kind: "bufio", BufSize: bs, Chunks: chunkSchedules[(bi*3+ri)%len(chunkSchedules)], FailAt: -1, Released: -1, EOFData: ri%2 == 1}, rd)
 				}
 			}
 		}
 	}
-	c.ev.Rule = fmt.Sprintf("%d streams (valid from 8 encoders incl. Flush points, and truncations) x source chunk schedules %v x Read schedules %v x bufio sizes %v x EOF-with-data, at every acceleration level (quick: a rotating quarter of the product per stream); each schedule's (bytes, digest, final error) must equal the all-at-once schedule's; distinct by (stream, schedule)", len(streams), chunkSchedules, readSchedules, bufioSizes)
-	c.ev.Exhaustive = c.Tier == "thorough"
+	c.ev.Rule = fmt.Sprintf("%d streams (valid from 8 encoders incl. Flush points, and truncations) x source chunk schedules %v x Read schedules %v x bufio sizes %v x EOF-with-data, at every acceleration level; each schedule's (bytes, digest, final error) must equal the all-at-once schedule's; distinct by (stream, schedule)", len(streams), chunkSchedules, readSchedules, bufioSizes)
+	c.ev.Exhaustive = true
 	for _, cs := range cases[1:minInt(4, len(cases))] {
 		c.ev.sample(map[string]interface{}{"stream": cs.Tag, "src": cs.Segs[0].Src, "reads": cs.Segs[0].Reads})
 	}
